@@ -265,6 +265,12 @@ def key_for(nodes, k, what, ex=None):
         return 'getitem:slice-bounds-not-clipped:' + what
     if fnindex and what == 'eval-exception:AssertionError':
         return 'take:unbounded-integer-index:eval-exception:AssertionError'
+    if fnindex and what == 'eval-exception:AttributeError' and "'NoneType' object has no attribute 'shape'" in msg:
+        return 'take:point-dependent-index:eval-exception:AttributeError'
+    if op == 'interp' and what == 'not-rejected':
+        return 'interp:not-rejected'
+    if op == 'reshape' and what == 'build-exception:AssertionError' and (0 in ops.seq(n['sh']) or any(0 in sh for sh in opsh)):
+        return 'zero-size-array:reshape:build-exception:AssertionError'
     if op == 'getitem' and desc in ('multiple-index-arrays', 'index-array-with-int') and what in ('shape', 'value', 'not-rejected'):
         return 'getitem:combined-index-arrays:outer-product-instead-of-broadcast'
     if op == 'getitem' and desc == 'bool-mask' and what.startswith('build-exception'):
